@@ -434,6 +434,9 @@ def failed_obligation_keys(meta, f):
 # Bounded stand-ins for ASSUMED callees (labelled bounded, never counted as proved): twin family,
 # the known-finding obligation id, and the committed list of case numbers known to fail.
 BOUNDED = {
+    "C04": [dict(family="refspanic", obligation="conversion/bounded-standin/refs.no_panic",
+                 known_cases="contracts/known_refspanic_cases.txt",
+                 what="convert_to_sem_type + is_subtype on named, possibly recursive types (not under contract): the 23769 questions of the `refs` family (see C05), a case fails only when the real code PANICS")],
     "C06": [dict(family="proper", obligation="proper_subtype/bounded-standin/proper.sub_vec",
                  known_cases="contracts/known_proper_cases.txt",
                  what="sub_vec_union / sub_vec_intersect / sub_vec_diff (assumed in C06; Verus rejects their labelled `continue`): reached through the public ProperSubtypeOps on all same-tag pairs of 52 proper subtypes (number lists over {1,2,3}, string lists over {a,b,c}, two typed-array kinds, allowed and excluded, booleans, diagrams), membership compared for every literal value")],
@@ -442,7 +445,10 @@ BOUNDED = {
                  what="list_is_empty / list_inhabited (assumed decider of C05): `a <: b | c` for tuple shapes with prefix <= 2 over {string, number} and an optional rest in {string, number}, against brute force over all lists of length <= 4 over three basic values"),
             dict(family="mapneg", obligation="mapping_dnf/bounded-standin/mapneg.dnf_mapping_is_empty",
                  known_cases="contracts/known_mapneg_cases.txt",
-                 what="dnf_mapping_is_empty / check_mapping_empty (assumed per-clause steps of the object decider): `A <: B | C` for objects with properties a, b (absent / required / optional, string or number) and an optional index signature over `string` or over the keys \"a\" | \"c\" (TypeScript-valid shapes only), against brute force over the 27 objects with keys a, b, c; exact reading on the left, structural on the right")],
+                 what="dnf_mapping_is_empty / check_mapping_empty (assumed per-clause steps of the object decider): `A <: B | C` for objects with properties a, b (absent / required / optional, string or number) and an optional index signature over `string` or over the keys \"a\" | \"c\" (TypeScript-valid shapes only), against brute force over the 27 objects with keys a, b, c; exact reading on the left, structural on the right"),
+            dict(family="refs", obligation="conversion/bounded-standin/refs.convert_to_sem_type",
+                 known_cases="contracts/known_refs_cases.txt",
+                 what="convert_to_sem_type and its *_runtype_ref_memo cuts (assumed conversion of named, possibly recursive types) followed by is_subtype: `S(v) <: B` for the singleton type S(v) of each of 611 finite values (null, 1, \"a\", lists up to length 3, linked-list objects, nesting depth 2) against 57 types over 9 named definitions (recursive tuple with itself as rest, mutually recursive tuples, recursive object, named closed/open tuples, ...); the oracle is membership of v in B by recursion on the value, exact in both directions; questions whose conversion is refused (Err) are skipped; a panic of the real code is a failing case")],
 }
 
 
